@@ -171,3 +171,68 @@ func Cases(words ...string) G {
 	}
 	return out
 }
+
+// Slot tokens: what a single numeric run, letter run or separator of a base version is replaced by.
+var (
+	SlotNums  = []string{"0", "1", "2", "9", "10", "11", "99", "100", "01", "010", "007", "08", "65535", "65536", "65537", "131072", "20240101", "2147483647", "2147483648", "4294967296", "9007199254740993", "18446744073709551616"}
+	SlotWords = []string{"a", "b", "z", "A", "Z", "x", "X", "v", "alpha", "beta", "rc", "RC", "Rc", "dev", "pre", "post", "p", "r", "and", "or", "candidate", "prerelease", "final", "ga", "sp", "snapshot", "SNAPSHOT", "git", "cvs", "foo", "m", "cr"}
+	SlotSeps  = []string{".", "-", "_", "+", "~", "^", ":", "!", ""}
+)
+
+func isDigit(c byte) bool  { return c >= '0' && c <= '9' }
+func isLetter(c byte) bool { return c >= 'a' && c <= 'z' || c >= 'A' && c <= 'Z' }
+
+// SlotMutations returns every one-slot substitution of base: each maximal digit run replaced by
+// each numeric token, each maximal letter run by each word token, each separator character by
+// each other separator, plus each word token appended after each separator (a new trailing slot).
+func SlotMutations(base string) []string {
+	var out []string
+	i := 0
+	for i < len(base) {
+		j := i
+		switch {
+		case isDigit(base[i]):
+			for j < len(base) && isDigit(base[j]) {
+				j++
+			}
+			for _, t := range SlotNums {
+				out = append(out, base[:i]+t+base[j:])
+			}
+		case isLetter(base[i]):
+			for j < len(base) && isLetter(base[j]) {
+				j++
+			}
+			for _, t := range SlotWords {
+				out = append(out, base[:i]+t+base[j:])
+			}
+		default:
+			j = i + 1
+			for _, t := range SlotSeps {
+				out = append(out, base[:i]+t+base[j:])
+			}
+		}
+		i = j
+	}
+	for _, sep := range []string{".", "-", "_", "+", "~", ""} {
+		for _, t := range SlotWords {
+			out = append(out, base+sep+t)
+		}
+		for _, t := range []string{"0", "1", "10", "01", "65536"} {
+			out = append(out, base+sep+t)
+		}
+	}
+	return out
+}
+
+// SlotFamily: the one-slot substitutions of all range bounds of an ecosystem (its typical shapes).
+func SlotFamily(name string) G {
+	var g G
+	bases := append([]string{}, RangeBounds[name]...)
+	if cb, ok := CaseBounds[name]; ok {
+		bases = append(bases, cb)
+	}
+	for _, b := range bases {
+		g = append(g, SlotMutations(b)...)
+	}
+	return g
+}
